@@ -385,6 +385,7 @@ func main() {
 	strm := parseDir(fset, filepath.Join(root, "serializer/stream"))
 	tu := parseDir(fset, filepath.Join(root, "serializer/typeutils"))
 	srx := parseDir(fset, filepath.Join(root, "serializer/serix"))
+	omap := parseDir(fset, filepath.Join(root, "ds/serializableorderedmap"))
 	var b strings.Builder
 	fmt.Fprintf(&b, "-- GENERATED by harness/c02/facts from the Go working tree (checks/c02.py, checks/c01c.py); do not edit.\nnamespace %s\n\n", ns)
 	cs := consts(fset, seri, []string{"OneByte", "UInt16ByteSize", "UInt32ByteSize", "UInt64ByteSize", "UInt256ByteSize",
@@ -433,6 +434,14 @@ func main() {
 		{seri, "Deserializer.ReadSequenceOfObjects"}, {seri, "Deserializer.RemainingBytes"}, {seri, "Deserializer.Done"},
 		{seri, "Deserializer.Skip"}, {seri, "Deserializer.ReadTime"}, {seri, "Deserializer.ReadPayload"},
 		{srx, "DecodeHex"}, {srx, "DecodeUint256"}, {srx, "DecodeUint64"},
+		// round 6: the remaining Deserializer primitives, the element validators, the entry points and small helpers of the JSON decoder, the ordered map
+		{seri, "Deserializer.ReadBool"}, {seri, "Deserializer.ReadByte"}, {seri, "Deserializer.ReadUint256"}, {seri, "Deserializer.ReadNum"},
+		{seri, "Deserializer.ReadBytesInPlace"}, {seri, "Deserializer.ReadObject"}, {seri, "Deserializer.readObject"}, {seri, "Deserializer.ReadSliceOfObjects"},
+		{seri, "Deserializer.CheckTypePrefix"}, {seri, "Deserializer.ConsumedAll"}, {seri, "Deserializer.AbortIf"}, {seri, "Deserializer.WithValidation"}, {seri, "Deserializer.Do"},
+		{seri, "ArrayRules.CheckBounds"}, {seri, "ArrayRules.ElementUniqueValidator"}, {seri, "ArrayRules.LexicalOrderValidator"},
+		{seri, "ArrayRules.LexicalOrderWithoutDupsValidator"}, {seri, "ArrayRules.AtMostOneOfEachTypeValidator"}, {seri, "ArrayRules.ElementValidationFunc"},
+		{srx, "API.JSONDecode"}, {srx, "API.MapDecode"}, {srx, "API.mapDecode"}, {srx, "mapDecodeBytes"}, {srx, "API.mapDecodeFloat"}, {srx, "API.mapDecodeNum"},
+		{omap, "SerializableOrderedMap.Decode"},
 	}
 	for _, bd := range bodies {
 		fd := findFunc(bd.files, bd.name)
